@@ -380,6 +380,7 @@ func run(c *eng.Ctx) {
 		alloc := func() (int, bool) { i := n; n++; return i, c.Mine(i) }
 		runSameRequestTwice(c, alloc)
 		RunNestedInstall(c, "C16", alloc)
+		RunRejectedRequests(c, "C16", alloc)
 	}()
 	for idx := 0; idx < l.total; idx++ {
 		if !c.Mine(idx) {
